@@ -101,6 +101,9 @@ func runCase(t *testing.T, c *Case, sch scheduler, maxMoves int, drain bool, emi
 		}
 		st := &runState{stage: c.Stage, inputs: c.Inputs, pos: make([]int, len(ins)), closedIn: make([]bool, len(ins)),
 			closedOut: make([]bool, nobs), nouts: nobs, timed: c.Stage.Kind == "emit" || c.Stage.Kind == "throttle"}
+		if c.Stage.Kind == "seq" {
+			c.Inputs = nil
+		}
 		synctest.Wait()
 
 		do := func(in intent) {
